@@ -430,7 +430,8 @@ func heapRun(c Case) Result {
 		return class
 	}
 	var nE, nS, nM, nonNil, applied int
-	clientAliased := false // the client itself made two snapshots share memory (M alias)
+	var evAfter, shrinkAfter int // events (and list-shrinking / renaming events) while a snapshot is held
+	clientAliased := false       // the client itself made two snapshots share memory (M alias)
 	add := func(s *heapSnap) {
 		s.want = s.value()
 		snaps = append(snaps, s)
@@ -442,6 +443,13 @@ func heapRun(c Case) Result {
 		switch op.Tag {
 		case "E":
 			nE++
+			if nonNil > 0 {
+				evAfter++
+				switch op.Ev.Cmd {
+				case "PART", "KICK", "QUIT", "NICK":
+					shrinkAfter++
+				}
+			}
 			ss.Apply(op.Ev)
 			if ss.PanicCount() > 0 {
 				// a handler panicked: the model says Panic for this history or it does not;
@@ -577,10 +585,11 @@ func heapRun(c Case) Result {
 		}
 		return "5+"
 	}
-	sig := "E" + bucket(nE) + " S" + bucket(nS) + " snaps" + bucket(nonNil) + " writes" + bucket(applied)
+	sig := "snaps" + bucket(nonNil) + " writes" + bucket(applied) + " events-after-snap" + bucket(evAfter) + " shrink/rename-after-snap" + bucket(shrinkAfter)
 	if nonNil == 0 || nE == 0 {
 		sig = "trivial " + sig
 	}
+	_, _ = nS, nM
 	return Result{Obs: strings.Join(out, ";"), Oracle: oracle, Sig: sig}
 }
 
@@ -717,6 +726,22 @@ func heapGenOps(r *rand.Rand, event func(*rand.Rand) Ev, members bool) Case {
 	ops := heapPrelude(r)
 	n := 4 + r.Intn(22)
 	nsnaps := 0
+	if r.Intn(5) != 0 { // start with a snapshot of something that is tracked
+		switch r.Intn(4) {
+		case 0:
+			ops = append(ops, heapOp{Tag: "S", Kind: "user", Name: "me"})
+			nsnaps++
+		case 1:
+			ops = append(ops, heapOp{Tag: "S", Kind: "chan", Name: "#a"})
+			nsnaps++
+		case 2:
+			ops = append(ops, heapOp{Tag: "S", Kind: "users"})
+			nsnaps += 3
+		default:
+			ops = append(ops, heapOp{Tag: "S", Kind: "chans"})
+			nsnaps += 2
+		}
+	}
 	for i := 0; i < n; i++ {
 		switch k := r.Intn(20); {
 		case k < 7:
